@@ -37,22 +37,27 @@ def parseUsize (s : List Char) : Option Nat :=
   else if digitsVal s > UNSET then none
   else some (digitsVal s)
 
+/-- the identifier characters at the head of `body` (`-` and digits for a relative reference) -/
+def idCharsOf (isId : Char → Bool) (body : List Char) (allowRelative : Bool) : List Char :=
+  match allowRelative, body with
+  | true, '-' :: rest => '-' :: rest.takeWhile isDigit
+  | _, _ => body.takeWhile isId
+
+/-- is what follows the identifier the closing delimiter (running to the end of the string is fine
+    only without a closer) -/
+def closeOk (closeD after : List Char) : Bool :=
+  match after with
+  | [] => closeD.isEmpty
+  | _ => closeD.isPrefixOf after
+
 /-- `parse_id(s, open, close, allow_relative)`: `(id, skip)` -/
 def parseId (isId : Char → Bool) (s openD closeD : List Char) (allowRelative : Bool) :
     Option (List Char × Nat) :=
   if !openD.isPrefixOf s then none else
-  let body := s.drop openD.length
-  let idChars :=
-    match allowRelative, body with
-    | true, '-' :: rest => '-' :: rest.takeWhile isDigit
-    | _, _ => body.takeWhile isId
-  let after := body.drop idChars.length
-  let ok :=
-    match after with
-    | [] => closeD.isEmpty          -- ran to the end of the string: fine only without a closer
-    | _ => closeD.isPrefixOf after
-  if !ok || idChars.isEmpty then none
-  else some (idChars, openD.length + idChars.length + closeD.length)
+  if !closeOk closeD ((s.drop openD.length).drop (idCharsOf isId (s.drop openD.length) allowRelative).length) ||
+      (idCharsOf isId (s.drop openD.length) allowRelative).isEmpty then none
+  else some (idCharsOf isId (s.drop openD.length) allowRelative,
+             openD.length + (idCharsOf isId (s.drop openD.length) allowRelative).length + closeD.length)
 
 inductive Step where
   | char (c : Char)
